@@ -323,12 +323,14 @@ impl AnimSection {
                 let translation = if (flags & 0x1) != 0 {
                     let timestamp_count = reader.read_u32_le()?;
 
-                    let mut timestamps = Vec::with_capacity((timestamp_count as usize).min(MAX_PREALLOC));
+                    let mut timestamps =
+                        Vec::with_capacity((timestamp_count as usize).min(MAX_PREALLOC));
                     for _ in 0..timestamp_count {
                         timestamps.push(reader.read_u32_le()?);
                     }
 
-                    let mut translations = Vec::with_capacity((timestamp_count as usize).min(MAX_PREALLOC));
+                    let mut translations =
+                        Vec::with_capacity((timestamp_count as usize).min(MAX_PREALLOC));
                     for _ in 0..timestamp_count {
                         translations.push(C3Vector::parse(reader)?);
                     }
@@ -345,12 +347,14 @@ impl AnimSection {
                 let rotation = if (flags & 0x2) != 0 {
                     let timestamp_count = reader.read_u32_le()?;
 
-                    let mut timestamps = Vec::with_capacity((timestamp_count as usize).min(MAX_PREALLOC));
+                    let mut timestamps =
+                        Vec::with_capacity((timestamp_count as usize).min(MAX_PREALLOC));
                     for _ in 0..timestamp_count {
                         timestamps.push(reader.read_u32_le()?);
                     }
 
-                    let mut rotations = Vec::with_capacity((timestamp_count as usize).min(MAX_PREALLOC));
+                    let mut rotations =
+                        Vec::with_capacity((timestamp_count as usize).min(MAX_PREALLOC));
                     for _ in 0..timestamp_count {
                         rotations.push(Quaternion::parse(reader)?);
                     }
@@ -367,12 +371,14 @@ impl AnimSection {
                 let scaling = if (flags & 0x4) != 0 {
                     let timestamp_count = reader.read_u32_le()?;
 
-                    let mut timestamps = Vec::with_capacity((timestamp_count as usize).min(MAX_PREALLOC));
+                    let mut timestamps =
+                        Vec::with_capacity((timestamp_count as usize).min(MAX_PREALLOC));
                     for _ in 0..timestamp_count {
                         timestamps.push(reader.read_u32_le()?);
                     }
 
-                    let mut scalings = Vec::with_capacity((timestamp_count as usize).min(MAX_PREALLOC));
+                    let mut scalings =
+                        Vec::with_capacity((timestamp_count as usize).min(MAX_PREALLOC));
                     for _ in 0..timestamp_count {
                         scalings.push(C3Vector::parse(reader)?);
                     }
